@@ -206,13 +206,22 @@ def check(case: Dict[str, Any]) -> Outcome:
                     except (anyio.WouldBlock, anyio.EndOfStream, anyio.ClosedResourceError):
                         break
 
+            async def settle():
+                # read until nothing more arrives (a transport that applies back-pressure only hands over the rest
+                # once the application has made room)
+                quiet = 0
+                while quiet < 3:
+                    n0 = len(got)
+                    await asyncio.sleep(0.1)
+                    drain()
+                    quiet = quiet + 1 if len(got) == n0 else 0
+
             for rq in reqs:
                 await w.send(parse_message(rq))
-                await asyncio.sleep(0.3)
-                drain()
+                await settle()
             # nothing else may turn up later (e.g. a synthesised timeout for an answered request)
             await asyncio.sleep(7.0)
-            drain()
+            await settle()
             return got
 
         transcripts: Dict[str, Any] = {}
@@ -330,7 +339,7 @@ def cases(draw, mode: str):
     n = draw(st.integers(1, 4))
     steps = []
     for k in range(n):
-        s: Dict[str, Any] = {"op": draw(st.sampled_from(sorted(OPS))), "notifs": draw(st.sampled_from([0, 0, 1, 2, 3])), "text": draw(_text), "payload": draw(_payload)}
+        s: Dict[str, Any] = {"op": draw(st.sampled_from(sorted(OPS))), "notifs": draw(st.sampled_from([0, 0, 1, 2, 3, 3, 120, 160])), "text": draw(_text), "payload": draw(_payload)}
         r_ = draw(st.integers(0, 11))
         if r_ <= 2:
             s["reply"] = "error"
